@@ -135,6 +135,13 @@ def pre_formulas(tier: str):
         for b, c in combinations(L10[2:7], 2):
             if a not in (b, c):
                 yield f"(and (or {b} {c}) {a})", ["or", "nested-first"]
+    # constant written before a variable; two-parameter fluents; a constant inside a function term; two literals
+    # of one predicate with the same sign (they coincide for a call that repeats an object)
+    for t in ("(and (q c ?x))", "(and (not (q c ?y)) (p ?x))", "(and (or (q c ?x) (q ?x c)))",
+              "(and (<= (h ?x ?y) 0.5))", "(and (p ?x) (>= (h ?y ?x) 1))", "(and (or (r) (< (h ?x ?y) (g ?y))))",
+              "(and (>= (h ?x c) 1))", "(and (< (h c ?y) (h ?y c)) (p c))",
+              "(and (p ?x) (p ?y))", "(and (not (p ?x)) (not (p ?y)) (r))", "(and (or (p ?x) (p ?y)) (p ?x))"):
+        yield t, ["extra"]
     for T, lz in LZ.items():
         for T2 in ("t1", "t2"):
             for z1, z2 in product(lz[:3], LZ[T2][:3]):
@@ -176,7 +183,7 @@ def pre_programs(tier: str):
     for prof in ("xy-grouped", "x2y", "xy-untyped", "x", "none"):
         n_or = 0
         for text, tags in pre_formulas("quick"):
-            keep = tags[0] in ("empty", "and1", "and2") or "forall-simple" in tags
+            keep = tags[0] in ("empty", "and1", "and2", "extra") or "forall-simple" in tags
             if tags[0] == "or" and n_or < 40:
                 keep = True
             if keep and compatible(prof, text):
@@ -260,6 +267,12 @@ MUTUAL = [
 ]
 
 
+EXTRA_EFF = [  # constant before a variable; constants inside function terms; same-sign twins
+    "(and (q c ?x))", "(and (not (q c ?y)) (q ?y c))", "(and (when (q c ?x) (not (q c ?x))))",
+    "(and (increase (h c ?y) 1))", "(and (assign (h ?x c) (h c ?x)))", "(and (p ?x) (p ?y))",
+    "(and (not (p ?x)) (not (p ?y)))", "(and (when (p ?y) (p ?x)) (when (p ?x) (p ?y)))",
+    "(and (when (p ?x) (not (q ?x ?y))) (when (q ?x ?y) (not (p ?x))))",
+]
 FINE = [  # right-hand sides whose exact value needs more than 4 decimals / is not a dyadic number
     "(and (increase (f) (* (g ?x) 0.0001)))",
     "(and (assign (g ?x) (+ (g ?x) (* (f) 0.00001))))",
@@ -275,6 +288,9 @@ def eff_programs(tier: str):
         yield program("xy", "(and)", text, ["mutual"])
     for text in FINE:
         yield program("xy", "(and)", text, ["fine", "inexact"])
+    for text in EXTRA_EFF:
+        for prof in ("xy", "x2y"):
+            yield program(prof, "(and)", text, ["extra"])
     for text, tags in eff_formulas(tier):
         if compatible("xy", text):
             yield program("xy", "(and)", text, tags)
